@@ -3,6 +3,7 @@ stores read by the getters, step functions, and the event classifier used by the
 path rules of C01 / C03 / C14 / C15."""
 from __future__ import annotations
 import ast
+from .common import U
 from ..report import AnalysisError
 from ..flow import Enumerator, RETURN, RAISE, count, fmt
 
@@ -47,8 +48,8 @@ def derive_stores(prog, cname):
                 for comp in ast.walk(gs):
                     if isinstance(comp, ast.ListComp):
                         g = comp.generators[0]
-                        if ast.unparse(g.target) == v.value.id and ast.unparse(g.iter).startswith("self."):
-                            S = (ast.unparse(g.iter)[5:], v.attr)
+                        if U(g.target) == v.value.id and U(g.iter).startswith("self."):
+                            S = (U(g.iter)[5:], v.attr)
                             kind = "params"
     if P is None or S is None:
         raise AnalysisError(f"cannot derive stores of {cname} from its getters (S={S}, P={P})")
@@ -74,20 +75,20 @@ def make_classifier(stores, lenattr="chain_length"):
 
     def compound(st):
         if stores.kind == "params" and isinstance(st, ast.For):
-            it = ast.unparse(st.iter)
+            it = U(st.iter)
             if f"self.{S[0]}" in it:
                 calls = [n for n in ast.walk(st) if isinstance(n, ast.Call) and isinstance(n.func, ast.Attribute)
                          and n.func.attr == "add_sample"]
                 if len(calls) == 1 and len(st.body) == 1:
                     src = ""
-                    if isinstance(st.iter, ast.Call) and ast.unparse(st.iter.func) == "zip":
-                        others = [ast.unparse(a) for a in st.iter.args if ast.unparse(a) != f"self.{S[0]}"]
+                    if isinstance(st.iter, ast.Call) and U(st.iter.func) == "zip":
+                        others = [U(a) for a in st.iter.args if U(a) != f"self.{S[0]}"]
                         src = others[0] if others else ""
                     # the appended value must be the loop element paired with the parameter
                     tgt = st.target
-                    val = ast.unparse(calls[0].args[0]) if calls[0].args else ""
-                    names = [ast.unparse(e) for e in tgt.elts] if isinstance(tgt, ast.Tuple) else [ast.unparse(tgt)]
-                    recv = ast.unparse(calls[0].func.value)
+                    val = U(calls[0].args[0]) if calls[0].args else ""
+                    names = [U(e) for e in tgt.elts] if isinstance(tgt, ast.Tuple) else [U(tgt)]
+                    recv = U(calls[0].func.value)
                     paired = val in names and recv in names and val != recv
                     return [("APPEND_S", st.lineno, src if paired else f"?{val}")]
         return None
@@ -96,13 +97,13 @@ def make_classifier(stores, lenattr="chain_length"):
         ev = []
         for n in ast.walk(node):
             if isinstance(n, ast.Call) and isinstance(n.func, ast.Attribute) and n.func.attr == "append":
-                tgt = ast.unparse(n.func.value)
+                tgt = U(n.func.value)
                 if tgt == f"self.{P}":
-                    ev.append(("APPEND_P", n.lineno, ast.unparse(n.args[0])))
+                    ev.append(("APPEND_P", n.lineno, U(n.args[0])))
                 elif stores.kind == "attr" and tgt == f"self.{S}":
-                    ev.append(("APPEND_S", n.lineno, ast.unparse(n.args[0])))
-        if isinstance(node, ast.AugAssign) and ast.unparse(node.target) == f"self.{lenattr}" \
-                and isinstance(node.op, ast.Add) and ast.unparse(node.value) == "1":
+                    ev.append(("APPEND_S", n.lineno, U(n.args[0])))
+        if isinstance(node, ast.AugAssign) and U(node.target) == f"self.{lenattr}" \
+                and isinstance(node.op, ast.Add) and U(node.value) == "1":
             ev.append(("INC_LEN", node.lineno, ""))
         return ev
     return classify, compound
@@ -165,4 +166,4 @@ def resolve_name(fn, expr, before_line, hops=4):
 
 
 def posterior_calls(node):
-    return [n for n in ast.walk(node) if isinstance(n, ast.Call) and ast.unparse(n.func) == "self.posterior"]
+    return [n for n in ast.walk(node) if isinstance(n, ast.Call) and U(n.func) == "self.posterior"]
